@@ -37,7 +37,8 @@ theorem trail_exact_tree {W : World} (hW : LeafReportsInput W) {m : DebugTrail} 
 
 /-- **Trails are exact.**  For every reported error of a failed FIRST/ALL load, the
     absolute trail leads from the root datum to a sub-value `x`, and the reported
-    `input_value` is `x` itself.  The only looseness: `ExtraItemsLoadError` /
+    `input_value` is `x` itself; only a `UnionLoadError` carries no input.  The only
+    looseness: `ExtraItemsLoadError` /
     `NoRequiredItemsLoadError` of the constant-length tuple loader report
     `tuple(data)` (the loader converts before checking), located at the tuple's own
     position. -/
@@ -45,14 +46,17 @@ theorem trail_exact {W : World} (hW : LeafReportsInput W) {m : DebugTrail} (hm :
     {s : Bool} {n : Nat} {T : Ty} {d : Val} {e : LErr} (hd : trailWf d = true)
     (h : load W ⟨m, s⟩ n T d = .err e) :
     ∀ p ∈ reports e, ∃ x, follow d p.1 = some x ∧
-      ∀ y, p.2.input = some y →
+      (∀ y, p.2.input = some y →
         y = x ∨ ((p.2.cls = "ExtraItemsLoadError" ∨ p.2.cls = "NoRequiredItemsLoadError") ∧
-                  ∃ xs, x.iterElems = some xs ∧ y = Val.tuple xs) := by
+                  ∃ xs, x.iterElems = some xs ∧ y = Val.tuple xs)) ∧
+      (p.2.input = none → p.2.cls = "UnionLoadError") := by
   intro p hp
-  obtain ⟨x, hx, hi, _⟩ := trail_exact_reports (trail_exact_load hW hm s n T d e hd h) p hp
-  refine ⟨x, hx, fun y hy => ?_⟩
-  rw [hy] at hi
-  exact hi
+  obtain ⟨hne, x, hx, hi, _⟩ := trail_exact_reports (trail_exact_load hW hm s n T d e hd h) p hp
+  refine ⟨x, hx, fun y hy => ?_, fun hnone => ?_⟩
+  · rw [hy] at hi
+    exact hi
+  · rw [hnone] at hi
+    exact hi.resolve_left hne
 
 /-- **The alternatives of a reported union are exact too**: for a reported
     `UnionLoadError` at absolute trail `t`, every error reported by one of its
@@ -62,15 +66,18 @@ theorem trail_exact_union_alternatives {W : World} (hW : LeafReportsInput W) {m 
     (h : load W ⟨m, s⟩ n T d = .err e) :
     ∀ p ∈ reports e, ∀ c ∈ p.2.children, ∀ q ∈ reports c,
       ∃ x, follow d (p.1 ++ q.1) = some x ∧
-        ∀ y, q.2.input = some y →
+        (∀ y, q.2.input = some y →
           y = x ∨ ((q.2.cls = "ExtraItemsLoadError" ∨ q.2.cls = "NoRequiredItemsLoadError") ∧
-                    ∃ xs, x.iterElems = some xs ∧ y = Val.tuple xs) := by
+                    ∃ xs, x.iterElems = some xs ∧ y = Val.tuple xs)) ∧
+        (q.2.input = none → q.2.cls = "UnionLoadError") := by
   intro p hp c hc q hq
-  obtain ⟨x, hx, _, hch⟩ := trail_exact_reports (trail_exact_load hW hm s n T d e hd h) p hp
-  obtain ⟨x', hx', hi, _⟩ := trail_exact_reports (hch c hc) q hq
-  refine ⟨x', by simp [trail_follow_append, hx, hx'], fun y hy => ?_⟩
-  rw [hy] at hi
-  exact hi
+  obtain ⟨_, x, hx, _, hch⟩ := trail_exact_reports (trail_exact_load hW hm s n T d e hd h) p hp
+  obtain ⟨hne, x', hx', hi, _⟩ := trail_exact_reports (hch c hc) q hq
+  refine ⟨x', by simp [trail_follow_append, hx, hx'], fun y hy => ?_, fun hnone => ?_⟩
+  · rw [hy] at hi
+    exact hi
+  · rw [hnone] at hi
+    exact hi.resolve_left hne
 
 /-! ## DISABLE -/
 
